@@ -721,11 +721,123 @@ impl crate::explore::CaseSpace for BroadcastConfig {
     }
 }
 
+// ---------------------------------------------------------------------------------------
+// a deferred READ with as many object headers as the outstation accepts
+// ---------------------------------------------------------------------------------------
+
+/// a READ with 1, 63, 64 (the limit) or 65 single-point headers arrives during an unsolicited
+/// confirm wait and is deferred: once the wait ends it is answered like the same READ from idle
+/// (every header up to the limit served; beyond the limit an error indication)
+struct DeferredLimit;
+
+impl crate::explore::CaseSpace for DeferredLimit {
+    fn name(&self) -> String {
+        "deferred-read-at-the-header-limit".into()
+    }
+    fn seeded(&self) -> bool {
+        true
+    }
+    fn total(&self) -> usize {
+        4 * 2
+    }
+    fn run(&self, index: usize, transcript: bool) -> RunResult {
+        use crate::osim::{OCfg, OSim};
+        use dnp3::outstation::database::*;
+        let mut res = RunResult::default();
+        let n = [1usize, 63, 64, 65][index % 4];
+        let by_timeout = index / 4 == 1;
+        res.obs = index as u64 + 646464;
+        let answer = |deferred: bool| -> Result<Vec<u8>, String> {
+            let cfg = OCfg { unsolicited: true, max_unsol_retries: Some(0), confirm_timeout_ms: TO, unsol_retry_delay_ms: 60_000, event_buf: [10; 8], ..Default::default() };
+            let mut sim = OSim::new(&cfg, 1);
+            sim.db_quiet(|db| {
+                for i in 0..70u16 {
+                    db.add(i, None, BinaryInputConfig::new(StaticBinaryInputVariation::Group1Var2, EventBinaryInputVariation::Group2Var1));
+                    db.update(i, &super::common::binary(i % 3 == 0, 1), UpdateOptions::no_event());
+                }
+                db.add(100, Some(EventClass::Class1), BinaryInputConfig::default());
+            });
+            let useq = super::common::null_unsol_handshake(&mut sim).ok_or("no null unsolicited response")?;
+            sim.send(&app::request(1, fc::ENABLE_UNSOLICITED, &app::class_headers(true, true, true, false)));
+            sim.take_out();
+            let mut pending = None;
+            if deferred {
+                sim.db(|db| {
+                    db.update(100, &super::common::binary(true, 2), UpdateOptions::detect_event());
+                });
+                pending = sim.take_out().iter().filter_map(|t| t.frag()).filter_map(app::Resp::parse).find(|r| r.uns()).map(|r| r.seq());
+                if pending.is_none() {
+                    return Err(format!("no unsolicited response to wait for (null was {useq})"));
+                }
+            }
+            let mut objs = Vec::new();
+            for i in 0..n {
+                objs.extend(app::hdr_range8(1, 2, i as u8, i as u8));
+            }
+            sim.send(&app::request(2, fc::READ, &objs));
+            if let Some(s) = pending {
+                let early: Vec<app::Resp> = sim.take_out().iter().filter_map(|t| t.frag()).filter_map(app::Resp::parse).filter(|r| !r.uns()).collect();
+                if !early.is_empty() {
+                    return Err("answered during the unsolicited confirm wait".to_string());
+                }
+                if by_timeout {
+                    sim.advance(TO);
+                } else {
+                    sim.send(&app::confirm(s, true));
+                }
+                sim.advance(10);
+            }
+            if let Some(f) = sim.failure() {
+                return Err(f);
+            }
+            let sol: Vec<app::Resp> = sim.take_out().iter().filter_map(|t| t.frag()).filter_map(app::Resp::parse).filter(|r| !r.uns() && r.seq() == 2).collect();
+            match sol.first() {
+                Some(r) => {
+                    // the class bits differ (an event is or is not waiting): compare IIN2 and the objects
+                    let mut v = vec![r.iin2];
+                    v.extend_from_slice(&r.objects);
+                    Ok(v)
+                }
+                None => Err("READ never answered".to_string()),
+            }
+        };
+        let from_idle = answer(false);
+        let deferred = answer(true);
+        res.transitions += 2;
+        if transcript {
+            res.transcript.push(format!("{n} headers: from idle {:?}", from_idle.as_ref().map(|v| v.len())));
+            res.transcript.push(format!("{n} headers: deferred  {:?}", deferred.as_ref().map(|v| v.len())));
+        }
+        match (&from_idle, &deferred) {
+            (Ok(a), Ok(b)) if a == b => {}
+            _ => {
+                res.violation = Some(Violation::new(
+                    "C14.D1",
+                    format!("deferred-read-answered-differently-from-the-same-read-from-idle:{n}-headers"),
+                    format!(
+                        "READ with {n} single-point headers: from idle {:?}, deferred until the unsolicited wait ended by {} {:?}",
+                        from_idle.as_ref().map(|v| format!("IIN2 {:02X} + {} object octets", v[0], v.len() - 1)),
+                        if by_timeout { "time-out" } else { "confirm" },
+                        deferred.as_ref().map(|v| format!("IIN2 {:02X} + {} object octets", v[0], v.len() - 1)),
+                    ),
+                ));
+                return res;
+            }
+        }
+        res.nontrivial = true;
+        res.model_states.push(n as u64);
+        res
+    }
+}
+
 pub fn replay(scenario: &str, path: &[usize]) -> Option<RunResult> {
     {
         use crate::explore::CaseSpace;
         if scenario == BroadcastConfig.name() {
             return Some(BroadcastConfig.run(path[0], true));
+        }
+        if scenario == DeferredLimit.name() {
+            return Some(DeferredLimit.run(path[0], true));
         }
     }
     scenarios("thorough").into_iter().find(|s| s.inner.name == scenario).map(|s| s.run(path, true))
@@ -737,9 +849,10 @@ pub fn check(tier: &str) -> i32 {
         c.explore(&s);
     }
     c.cases(&BroadcastConfig);
+    c.cases(&DeferredLimit);
     c.finish(
         "model_checking",
-        "(broadcast) {nothing, everything} enabled before x {ENABLE, DISABLE}_UNSOLICITED x the 7 non-empty class sets x the 3 broadcast addresses x {from idle, while an unsolicited response awaits its confirm}: afterwards exactly the classes of the resulting set are reported unsolicited; (histories) every event history over the listed alphabet (updates in two classes, ENABLE/DISABLE_UNSOLICITED for class 1 / all, right and wrong unsolicited confirms, solicited confirm, READ class 1 / class 0, another request, time advances to confirm timeout -1 ms / +1 ms / exactly and around the retry delay, reconnect) from a freshly created outstation (start-up null response included) up to the listed depth, followed by a liveness drain with an ideal master; a temporal monitor over virtual timestamps checks every transmitted fragment; non-trivial = at least two unsolicited series were observed; distinct = distinct observation trace",
+        "(broadcast) {nothing, everything} enabled before x {ENABLE, DISABLE}_UNSOLICITED x the 7 non-empty class sets x the 3 broadcast addresses x {from idle, while an unsolicited response awaits its confirm}: afterwards exactly the classes of the resulting set are reported unsolicited; (header limit) a READ with 1 / 63 / 64 / 65 single-point headers deferred during an unsolicited wait is answered exactly like the same READ from idle; (histories) every event history over the listed alphabet (updates in two classes, ENABLE/DISABLE_UNSOLICITED for class 1 / all, right and wrong unsolicited confirms, solicited confirm, READ class 1 / class 0, another request, time advances to confirm timeout -1 ms / +1 ms / exactly and around the retry delay, reconnect) from a freshly created outstation (start-up null response included) up to the listed depth, followed by a liveness drain with an ideal master; a temporal monitor over virtual timestamps checks every transmitted fragment; non-trivial = at least two unsolicited series were observed; distinct = distinct observation trace",
         &[
             "confirm timeout 5 s; retry delay 5 s and 2 s; retry limits 0,1 (quick) and None,0,1,2 (thorough)",
             "after a reconnect the monitor does not constrain when the next series starts",
